@@ -99,44 +99,71 @@ def render_meta_entry(e, sp):
 
 def render(prog, spelling=None):
     """-> DSL text (one declaration per line, canonical)."""
+    return render_lines(prog, spelling)[0]
+
+
+def render_lines(prog, spelling=None, lead=0):
+    """-> (text, sitemap) ; sitemap: site tuple -> 1-based line of the declaration's first token.
+    Sites: ("xopt", k) ("meta", j) ("pkt", j) ("field", j, i) ("pair", j, i, q)  (1-based, as Validate.tla)."""
     sp = spelling or {}
     o = prog["opts"]
-    lines = []
+    lines = ["// leading comment %d" % i for i in range(lead)]
+    sites = {}
+
+    def add(text, site=None):
+        if site is not None:
+            sites[site] = len(lines) + 1
+        lines.extend(text.split("\n"))
     optl = []
     if o.get("pkgs", "set") != "omit":
-        optl += ["    %s = %s;" % kv for kv in PKG_OPTS]
+        optl += [("    %s = %s;" % kv, None) for kv in PKG_OPTS]
     if o.get("le"):
-        optl.append("    LittleEndian = %s;" % o["le"])
+        optl.append(("    LittleEndian = %s;" % o["le"], None))
     elif sp.get("defopts"):
-        optl.append("    LittleEndian = false;")
+        optl.append(("    LittleEndian = false;", None))
     if o.get("sp"):
-        optl.append("    StringPrefixLenType = %s;" % o["sp"])
+        optl.append(("    StringPrefixLenType = %s;" % o["sp"], None))
     elif sp.get("defopts"):
-        optl.append("    StringPrefixLenType = u16;")
+        optl.append(("    StringPrefixLenType = u16;", None))
     if o.get("ap"):
-        optl.append("    ArrayPrefixLenType = %s;" % o["ap"])
+        optl.append(("    ArrayPrefixLenType = %s;" % o["ap"], None))
     elif sp.get("defopts"):
-        optl.append("    ArrayPrefixLenType = u16;")
+        optl.append(("    ArrayPrefixLenType = u16;", None))
     if o.get("padleft"):
-        optl.append("    FixedStringPadFromLeft = %s;" % o["padleft"])
+        optl.append(("    FixedStringPadFromLeft = %s;" % o["padleft"], None))
     elif sp.get("defopts"):
-        optl.append("    FixedStringPadFromLeft = false;")
+        optl.append(("    FixedStringPadFromLeft = false;", None))
     if o.get("padchar"):
-        optl.append("    FixedStringPadChar = %s;" % {"0": "'0'", "sp": "' '", "nul": "'\\x00'"}[o["padchar"]])
+        optl.append(("    FixedStringPadChar = %s;" % {"0": "'0'", "sp": "' '", "nul": "'\\x00'"}[o["padchar"]], None))
+    for k, x in enumerate(prog.get("xopts") or [], 1):
+        optl.append(("    %s = %s;" % (x[0], x[1]), ("xopt", k)))
     if sp.get("nosemi"):
-        optl = [x.rstrip(";") for x in optl]
+        optl = [(t.rstrip(";"), s_) for t, s_ in optl]
     if optl:
-        lines += ["options {"] + optl + ["}"]
+        add("options {")
+        for t, s_ in optl:
+            add(t, s_)
+        add("}")
     if prog.get("metas"):
-        lines.append("MetaData M {")
-        lines += [render_meta_entry(e, sp) for e in prog["metas"]]
-        lines.append("}")
-    for p in prog["pkts"]:
-        lines.append("%spacket %s {" % ("root " if p["root"] else "", p["name"]))
-        for f in p["fields"]:
-            lines.append(render_field(f, "    ", sp, p["name"] + "." + f["name"]))
-        lines.append("}")
-    return "\n".join(lines) + "\n"
+        add("MetaData M {")
+        for j, e in enumerate(prog["metas"], 1):
+            add(render_meta_entry(e, sp), ("meta", j))
+        add("}")
+    for j, p in enumerate(prog["pkts"], 1):
+        add("%spacket %s {" % ("root " if p["root"] else "", p["name"]), ("pkt", j))
+        for i, f in enumerate(p["fields"], 1):
+            first = len(lines) + 1
+            text = render_field(f, "    ", sp, p["name"] + "." + f["name"])
+            add(text, ("field", j, i))
+            if f["k"] == "match":
+                # one line per pair (or per literal when expanded), after the header line
+                ln = first + 1
+                s_ = dict(sp.get("*", {}), **(sp.get(p["name"] + "." + f["name"], {}) if isinstance(sp.get(p["name"] + "." + f["name"]), dict) else {}))
+                for q, pr in enumerate(f["pairs"], 1):
+                    sites[("pair", j, i, q)] = ln
+                    ln += len(pr["lits"]) if s_.get("expand") else 1
+        add("}")
+    return "\n".join(lines) + "\n", sites
 
 
 # ---------------------------------------------------------------------------------------------
